@@ -28,8 +28,12 @@ struct SchedState {
 /// hands the baton to a worker drawn from a SplitMix64 stream of the seed.
 pub struct Sched {
     st: Mutex<SchedState>,
-    cv: Condvar,
+    // one condition variable per worker index, so that handing over the baton wakes
+    // exactly one thread
+    cvs: Vec<Condvar>,
 }
+
+const MAX_WORKERS: usize = 64;
 
 impl Sched {
     pub fn new(seed: u64) -> Arc<Self> {
@@ -44,7 +48,7 @@ impl Sched {
                 points: 0,
                 trace: 0,
             }),
-            cv: Condvar::new(),
+            cvs: (0..MAX_WORKERS).map(|_| Condvar::new()).collect(),
         })
     }
 
@@ -90,14 +94,17 @@ impl Sched {
         st.entered += 1;
         st.alive.push(index);
         WORKER.with(|w| w.set(Some(index)));
+        assert!(index < MAX_WORKERS, "too many workers for the verification scheduler");
         if st.entered == st.expected {
             st.alive.sort();
             Self::pick(&mut st);
-            self.cv.notify_all();
+            self.wake(&st);
         }
 
         while st.current != Some(index) {
-            st = self.cv.wait(st).unwrap_or_else(|e| e.into_inner());
+            st = self.cvs[index]
+                .wait(st)
+                .unwrap_or_else(|e| e.into_inner());
         }
     }
 
@@ -110,9 +117,11 @@ impl Sched {
         st.points += 1;
         Self::pick(&mut st);
         if st.current != Some(index) {
-            self.cv.notify_all();
+            self.wake(&st);
             while st.current != Some(index) {
-                st = self.cv.wait(st).unwrap_or_else(|e| e.into_inner());
+                st = self.cvs[index]
+                    .wait(st)
+                    .unwrap_or_else(|e| e.into_inner());
             }
         }
     }
@@ -132,7 +141,13 @@ impl Sched {
             Self::pick(&mut st);
         }
 
-        self.cv.notify_all();
+        self.wake(&st);
+    }
+
+    fn wake(&self, st: &SchedState) {
+        if let Some(n) = st.current {
+            self.cvs[n].notify_one();
+        }
     }
 }
 
